@@ -726,7 +726,9 @@ class CaseRun:
                     self._do_res(st[1])
                 elif op == "prog":
                     i = st[1]
-                    if self.progress_fn[i] is not None and self.calls[i]:
+                    if self.cur_gen.get(self.invs[i]["rid"]) != i:
+                        pass      # its request id now belongs to a later invocation: attribution would be ambiguous
+                    elif self.progress_fn[i] is not None and self.calls[i]:
                         late = self._terminal_seen(i) > 0
                         if late:
                             self.progress_late[i] += 1
